@@ -29,7 +29,7 @@ func (r *Rng) Intn(n int) int {
 	return int(r.U64() % uint64(n))
 }
 
-func (r *Rng) Bool() bool       { return r.U64()&1 == 1 }
+func (r *Rng) Bool() bool        { return r.U64()&1 == 1 }
 func (r *Rng) Chance(p int) bool { return r.Intn(100) < p } // p percent
 
 func (r *Rng) Bytes(n int) []byte {
